@@ -15,7 +15,7 @@ build() {
 }
 needs_build() {
   [ ! -x "$BIN" ] && return 0
-  [ -n "$(find checker -newer "$BIN" \( -name '*.go' -o -name 'go.mod' -o -name 'go.sum' -o -name 'mutants.json' \) -print -quit)" ] && return 0
+  [ -n "$(find checker -newer "$BIN" \( -name '*.go' -o -name 'go.mod' -o -name 'go.sum' -o -name 'mutants.json' -o -name 'known_funcs.txt' \) -print -quit)" ] && return 0
   return 1
 }
 case "${1:-}" in
